@@ -13,7 +13,7 @@ for d in seeded/${1:-*}/; do
   [ -f $p ] || continue
   prop=$(echo $n | cut -d- -f1)
   chk=$prop
-  case $n in C04-r2-m2) chk=C17;; C09-r2-m1) chk=C09;; C01-r2-m2) chk=C05;; esac
+  case $n in C04-r2-m2) chk=C17;; C09-r2-m1) chk=C09;; C01-r2-m2) chk=C05;; C12-r3-m2) chk=C11;; esac
   if git -C $W apply --check /verif/$p 2>/dev/null; then git -C $W apply /verif/$p
   elif git -C $W apply --3way /verif/$p >/dev/null 2>&1; then :
   else echo "$n: patch does not apply to the current tree"; git -C $W reset -q --hard HEAD; continue; fi
